@@ -51,7 +51,10 @@ ConfTable == <<
     << S(<<65>>, <<64, 97, 64>>), S(a, <<90>>), I(<<66>>, 0) >>, \* 7  A = '@a@', a = 'Z', B = 0
     << S(a, <<88>>), S(b, <<89, 89>>), S(<<65>>, <<118>>), I(<<66>>, -3) >>,  \* 8  a = 'X', b = 'YY', A = 'v', B = -3
     << S(<<65>>, <<36, 123, 97, 125>>), S(a, <<90>>) >>,         \* 9  A = '${a}', a = 'Z'
-    << S(<<65>>, <<118>>), Bo(<<66>>, 1) >>                      \* 10 A = 'v', B = true (a, b undefined)
+    << S(<<65>>, <<118>>), Bo(<<66>>, 1) >>,                     \* 10 A = 'v', B = true (a, b undefined)
+    << S(a, <<252, 8364>>), Bo(<<65>>, 1) >>,                    \* 11 a = u-umlaut + euro sign, A = true
+    << S(a, <<26085>>) >>,                                       \* 12 a = a CJK character (no 8-bit codec has it)
+    << S(a, <<120>>), S(<<65>>, <<233>>) >>                      \* 13 a = 'x', A = e-acute
 >>
 Formats == <<"meson", "cmake", "cmake@">>
 
